@@ -227,6 +227,9 @@ def run_api(case, phi, profs, bins, expected, scale):
     else:
         target = xr.DataArray(np.array(bins), dims=[api["target_dim"]])
         newdim = api["target_dim"]
+    # a call with *other* target_data of the same name first (another time step, say): nothing of it may survive on the Grid
+    td_other = (td * 0.5 - 3.25).rename(td.name)
+    must_return("Grid.transform(method='conservative') with other target_data", grid.transform, da, "Z", target, target_data=td_other, method="conservative")
     got = must_return("Grid.transform(method='conservative')", grid.transform, da, "Z", target, target_data=td, method="conservative")
     if api["chunk"] and lead:
         import dask
